@@ -17,8 +17,9 @@ from vlib.runner import Ctx, Failure
 LEVEL = "exploration"
 RULE = (
     "2..3 endpoints, each a real thread with a script projected from a global message plan (<=4 sends per endpoint; "
-    "connect, send, send_structured, blocking recv, non-blocking recv, disconnect; plain and callback delivery; 1..2 socket "
-    "ids) plus a schedule = list of small ints choosing the next thread at every statement of the hub; Hypothesis draws both; "
+    "connect, send, send_silent, send_structured, blocking recv (with and without a timeout), non-blocking recv, recv_silent, disconnect; "
+    "message texts include the empty string and repeated texts; plain and callback delivery; 1..2 socket ids; in a third of the "
+    "scenarios one endpoint closes a socket part-way and opens it again, possibly with the other delivery mode) plus a schedule = list of small ints choosing the next thread at every statement of the hub; Hypothesis draws both; "
     "both tiers enumerate every single-preemption schedule of five fixed scripts; thorough also enumerates all schedules with <=3 preemptions for small two-endpoint scripts.  Non-trivial = >=1 "
     "preemption inside a hub method and >=2 messages sent; distinct by (scripts, schedule)"
 )
@@ -67,11 +68,18 @@ def st_scenario(draw):
         if sends_per.get(src, 0) >= 4:
             continue
         sends_per[src] = sends_per.get(src, 0) + 1
-        plan.append({"src": src, "dst": dst, "sid": c["sid"], "msg": f"m{k}", "structured": draw(st.integers(0, 3)) == 0, "recv": draw(st.sampled_from(["block", "block", "nb-then-block"]))})
+        plan.append({"src": src, "dst": dst, "sid": c["sid"], "msg": draw(st.sampled_from([f"m{k}", f"m{k}", f"m{k}", "", "dup"])), "structured": draw(st.integers(0, 3)) == 0,
+                     "recv": draw(st.sampled_from(["block", "block", "nb-then-block"])), "via": draw(st.sampled_from(["logged", "logged", "silent"])),
+                     "timeout": draw(st.sampled_from([None, None, 1e6]))})
     extra_nb = draw(st.lists(st.tuples(st.sampled_from(names), st.integers(0, 8)), max_size=2))
     disconnect = {n: draw(st.booleans()) for n in names}
     schedule = draw(st_schedule())
-    return {"kind": "plan", "names": names, "conns": conns, "plan": plan, "extra_nb": [list(e) for e in extra_nb], "disconnect": disconnect, "schedule": schedule}
+    scn = {"kind": "plan", "names": names, "conns": conns, "plan": plan, "extra_nb": [list(e) for e in extra_nb], "disconnect": disconnect, "schedule": schedule}
+    if draw(st.integers(0, 2)) == 0 and plan:
+        # one endpoint closes one of its sockets part-way and opens it again (same names and id, possibly another delivery mode)
+        c = draw(st.sampled_from(conns))
+        scn["reconnect"] = {"who": draw(st.sampled_from([c["x"], c["y"]])), "conn": conns.index(c), "at": draw(st.integers(0, len(plan))), "mode2": draw(st.sampled_from(["plain", "cb"]))}
+    return scn
 
 
 def build_scripts(scn) -> Dict[str, List[Any]]:
@@ -86,15 +94,34 @@ def build_scripts(scn) -> Dict[str, List[Any]]:
         k = (m["src"], m["dst"], m["sid"])
         chan_all_structured[k] = chan_all_structured.get(k, True) and m["structured"]
     nb_names = {name for name, _pos in scn["extra_nb"]}
-    for m in scn["plan"]:
+    rc = scn.get("reconnect")
+    if rc:
+        c = scn["conns"][rc["conn"]]
+        rc_other = c["y"] if rc["who"] == c["x"] else c["x"]
+        if c["mode"][rc["who"]] != rc["mode2"] or True:
+            # with a reconnect the delivery mode of a channel may change while messages are in flight: plain decoding only
+            chan_all_structured = {k: False for k in chan_all_structured}
+
+    def reconnect_now():
+        scripts[rc["who"]].append(["disconnect", rc_other, c["sid"]])
+        scripts[rc["who"]].append(["connect", rc_other, c["sid"], rc["mode2"]])
+        modes[(rc["who"], rc_other, c["sid"])] = rc["mode2"]
+
+    for i, m in enumerate(scn["plan"]):
+        if rc and rc["at"] == i:
+            reconnect_now()
         # recv_structured is only used where every message on that channel is structured and no stray non-blocking
         # receive can take a message meant for another receive; otherwise plain recv + lenient decoding in the harness
         m = dict(m, structured_recv=chan_all_structured[(m["src"], m["dst"], m["sid"])] and m["dst"] not in nb_names)
-        scripts[m["src"]].append(["send_structured" if m["structured"] else "send", m["dst"], m["sid"], m["msg"]])
+        silent = m.get("via") == "silent" and not m["structured"]
+        scripts[m["src"]].append(["send_structured" if m["structured"] else ("send_silent" if silent else "send"), m["dst"], m["sid"], m["msg"]])
         if modes[(m["dst"], m["src"], m["sid"])] == "plain":
+            rsilent = m.get("via") == "silent" and not m["structured_recv"]
             if m["recv"] == "nb-then-block":
-                scripts[m["dst"]].append(["recv_nb", m["src"], m["sid"], m["structured_recv"]])
-            scripts[m["dst"]].append(["recv", m["src"], m["sid"], m["structured_recv"]])
+                scripts[m["dst"]].append(["recv_nb", m["src"], m["sid"], m["structured_recv"], rsilent])
+            scripts[m["dst"]].append(["recv", m["src"], m["sid"], m["structured_recv"], rsilent, m.get("timeout")])
+    if rc and rc["at"] >= len(scn["plan"]):
+        reconnect_now()
     for name, pos in scn["extra_nb"]:
         plain = [(o, s) for (me, o, s), md in modes.items() if me == name and md == "plain"]
         if plain:
@@ -104,9 +131,27 @@ def build_scripts(scn) -> Dict[str, List[Any]]:
     for name in scn["names"]:
         if scn["disconnect"].get(name):
             for (me, o, s), md in modes.items():
+                if rc and (me, o, s) == (rc_other, rc["who"], c["sid"]):
+                    continue  # the peer of a socket that is opened a second time stays: the second opening must find it
                 if me == name and md == "plain":
                     scripts[name].append(["disconnect", o, s])
     return scripts
+
+
+def _is_merge(whole, a, b) -> bool:
+    """`whole` is an interleaving of `a` and `b` that keeps the order inside each"""
+    if len(whole) != len(a) + len(b):
+        return False
+    reach = {(0, 0)}
+    for x in whole:
+        nxt = set()
+        for i, j in reach:
+            if i < len(a) and a[i] == x:
+                nxt.add((i + 1, j))
+            if j < len(b) and b[j] == x:
+                nxt.add((i, j + 1))
+        reach = nxt
+    return (len(a), len(b)) in reach
 
 
 def _payload(m):
@@ -133,6 +178,13 @@ def run(scn) -> Dict[str, Any]:
     hubmod.timer = sch.timer
     log: List[Any] = []
     socks: Dict[Tuple[str, str, int], Any] = {}
+    old_socks: List[Any] = []  # closed socket objects stay alive until the end of the run (no finalizer in mid-run)
+    ever_plain = set()
+
+    class LoggingStorageSocket(StorageThreadSocket):
+        def recv_callback(self, msg):
+            super().recv_callback(msg)
+            log.append((self.app_name, "cb-recv", self.remote_app_name, self.id, _payload(msg)))
     if scn["kind"] == "open-close":
         scripts = {"a": [["connect", "b", 0, "plain"], ["disconnect", "b", 0]], "b": [["connect", "a", 0, "plain"], ["send", "a", 0, "late"]]}
     elif scn["kind"] == "late-open-close":
@@ -148,27 +200,39 @@ def run(scn) -> Dict[str, Any]:
                 key = (name, op[1], op[2])
                 try:
                     if k == "connect":
-                        cls = StorageThreadSocket if op[3] == "cb" else ThreadSocket
+                        cls = LoggingStorageSocket if op[3] == "cb" else ThreadSocket
+                        if key in socks:
+                            old_socks.append(socks[key])
+                        if op[3] == "plain":
+                            ever_plain.add(key)
                         socks[key] = cls(name, op[1], socket_id=op[2])
                         log.append((name, "connected", op[1], op[2]))
                     elif k == "send":
                         socks[key].send(op[3])
                         log.append((name, "sent", op[1], op[2], op[3]))
+                    elif k == "send_silent":
+                        socks[key].send_silent(op[3])
+                        log.append((name, "sent", op[1], op[2], op[3]))
                     elif k == "send_structured":
                         socks[key].send_structured(StructuredMessage(header="h", payload=op[3]))
                         log.append((name, "sent", op[1], op[2], op[3]))
                     elif k == "recv":
+                        kw = {"timeout": op[5]} if len(op) > 5 and op[5] is not None else {}
                         if op[3]:
-                            m = socks[key].recv_structured()
+                            m = socks[key].recv_structured(**kw)
                             m = m.payload
+                        elif len(op) > 4 and op[4]:
+                            m = _payload(socks[key].recv_silent(**kw))
                         else:
-                            m = _payload(socks[key].recv())
+                            m = _payload(socks[key].recv(**kw))
                         log.append((name, "recv", op[1], op[2], m))
                     elif k == "recv_nb":
                         slept = sch.sleep_count.get(name, 0)
                         try:
                             if op[3]:
                                 m = socks[key].recv_structured(block=False).payload
+                            elif len(op) > 4 and op[4]:
+                                m = _payload(socks[key].recv_silent(block=False))
                             else:
                                 m = _payload(socks[key].recv(block=False))
                             log.append((name, "recv", op[1], op[2], m))
@@ -217,11 +281,14 @@ def run(scn) -> Dict[str, Any]:
         # ---------------- oracle per direction and socket id
         sent: Dict[Tuple[str, str, int], List[str]] = {}
         got: Dict[Tuple[str, str, int], List[str]] = {}
+        cbgot: Dict[Tuple[str, str, int], List[str]] = {}
         for x in log:
             if x[1] == "sent":
                 sent.setdefault((x[0], x[2], x[3]), []).append(x[4])
             elif x[1] == "recv":
                 got.setdefault((x[2], x[0], x[3]), []).append(x[4])
+            elif x[1] == "cb-recv":
+                cbgot.setdefault((x[2], x[0], x[3]), []).append(x[4])
         modes = {}
         for c in scn["conns"]:
             modes[(c["x"], c["y"], c["sid"])] = c["mode"][c["x"]]
@@ -237,6 +304,23 @@ def run(scn) -> Dict[str, Any]:
                     queue_payload.append(json.loads(m)["payload"])
                 except Exception:
                     queue_payload.append(m)
+            if scn.get("reconnect"):
+                # delivery modes may have changed in mid-run: every message sent is received exactly once, in order, by a
+                # blocking/non-blocking receive or by a callback, or is still queued; an endpoint that only ever used
+                # callbacks leaves nothing in the queue
+                r_all = [x[4] for x in log if x[1] in ("recv", "cb-recv") and (x[2], x[0], x[3]) == (src, dst, sid)]
+                rcn = scn["reconnect"]
+                cc = scn["conns"][rcn["conn"]]
+                plain_to_cb = (dst, sid) == (rcn["who"], cc["sid"]) and src in (cc["x"], cc["y"]) and cc["mode"][rcn["who"]] == "plain" and rcn["mode2"] == "cb"
+                # a message queued for the plain socket just before it is replaced by a callback socket stays queued while later
+                # ones reach the callback: then the sent sequence is an order-preserving merge of the two
+                ok = _is_merge(msgs, r_all, queue_payload) if plain_to_cb else r_all + queue_payload == msgs
+                if not ok:
+                    what = "lost" if len(r_all) + len(queue_payload) < len(msgs) else ("duplicated" if len(r_all) + len(queue_payload) > len(msgs) else "reordered")
+                    raise Failure(f"delivery:{what}:reconnect", case, f"{src}->{dst} socket {sid}: sent {msgs}, received {r_all}, still queued {queue_payload}")
+                if (dst, src, sid) not in ever_plain and queue_payload:
+                    raise Failure("callback-delivery:reconnect", case, f"{src}->{dst} socket {sid}: {dst} only ever used callbacks but {queue_payload} sits in the hub queue (sent {msgs})")
+                continue
             if dmode == "cb":
                 s = socks.get((dst, src, sid))
                 storage = list(s._storage) if s is not None else []
@@ -268,17 +352,18 @@ def run(scn) -> Dict[str, Any]:
             if x[2] == "recv":
                 # a blocking receive that starved: fine only if its message was never sent (sender hit a connection error)
                 key = (x[3], x[0], x[4])
-                if len(got.get(key, [])) < len(sent.get(key, [])) and modes[(x[0], x[3], x[4])] == "plain":
+                if len(got.get(key, [])) + len(cbgot.get(key, []) if scn.get("reconnect") else []) < len(sent.get(key, [])) and (modes[(x[0], x[3], x[4])] == "plain" or scn.get("reconnect")):
                     raise Failure("delivery:lost", case, f"endpoint {x[0]} blocks forever although {sent.get(key)} was sent to it (received {got.get(key, [])})")
         info["sent"] = n_sent
         return info
     finally:
-        for s in list(socks.values()):
+        for s in list(socks.values()) + old_socks:
             try:
                 hub.disconnect(s)
             except Exception:
                 pass
         socks.clear()
+        old_socks.clear()
         hubmod.reset_socket_hub()
 
 
@@ -298,6 +383,12 @@ def shard(ctx: Ctx) -> None:
             labels += [f"endpoints:{len(scn['names'])}"] + sorted({"mode:" + m for c in scn["conns"] for m in c["mode"].values()})
             if any(m["structured"] for m in scn["plan"]):
                 labels.append("structured")
+            if scn.get("reconnect"):
+                labels.append("reconnect")
+            if any(m["msg"] == "" for m in scn["plan"]):
+                labels.append("empty-string-message")
+            if any(m.get("via") == "silent" for m in scn["plan"]):
+                labels.append("silent-entry-points")
         stt.case(scn, nt, labels, sample=scn if len(str(scn)) < 900 else None)
 
     ctx.search(st_scenario(), body, n, name="c18")
